@@ -213,7 +213,7 @@ func TestC04(t *testing.T) {
 	}
 	types := append(append([]*msgInfo{}, all...), users...)
 	env := &c04env{rep: rep}
-	nVals := vh.Pick(12, 400)
+	nVals := vh.Pick(40, 400)
 	lenStep := vh.Pick(0, 1)
 	for ti, mi := range types {
 		if mi.Layout.SizeExt > 255 {
